@@ -1096,7 +1096,35 @@ fn sub_c06_method_sweep(input: &[u8], st: &mut Stats) -> R {
     roundtrip(it, st)
 }
 
+/// hand-minimised histories
+fn sub_c06_fixed(input: &[u8], st: &mut Stats) -> R {
+    let k = idx(input);
+    let mut it = Interp::new();
+    it.env.conforming = true;
+    match k {
+        0 => {
+            // F1: OpTypeStructContinuedINTEL is emitted with a result id
+            let a = it.alloc_id()?;
+            let b = it.alloc_id()?;
+            it.call_with(method("type_struct_continued_intel"), vec![ArgVal::Words(vec![a, b])], None)?;
+        }
+        1 => {
+            // D9: execution_mode_id parameters are ids
+            let a = it.alloc_id()?;
+            let b = it.alloc_id()?;
+            it.call_with(
+                method("execution_mode_id"),
+                vec![ArgVal::Word(a), ArgVal::Enum("ExecutionMode", 37), ArgVal::U32s(vec![b])],
+                None,
+            )?;
+        }
+        _ => return Ok(()),
+    }
+    roundtrip(it, st)
+}
+
 pub const C06_SUBS: &[Sub] = &[
+    Sub { name: "fixed-histories", f: sub_c06_fixed },
     Sub { name: "method-sweep", f: sub_c06_method_sweep },
     Sub { name: "histories", f: sub_c06_histories },
 ];
@@ -1115,8 +1143,9 @@ pub fn c06_run(ctx: &Ctx) {
         uncovered
     ));
     run_regress(ctx, C06_SUBS);
-    drive_enum(ctx, &C06_SUBS[0], pools().emitting.len() as u64 * 3);
-    drive_random(ctx, &C06_SUBS[1], ctx.n(20_000, 1_000_000), 2500);
+    drive_enum(ctx, &C06_SUBS[0], 2);
+    drive_enum(ctx, &C06_SUBS[1], pools().emitting.len() as u64 * 3);
+    drive_random(ctx, &C06_SUBS[2], ctx.n(20_000, 1_000_000), 2500);
 }
 
 pub fn c06_finish(ctx: &Ctx) -> i32 {
